@@ -5,6 +5,7 @@ package main
 // discharged by a dominating guard or by a frozen reason.
 
 import (
+	"os"
 	"fmt"
 	"go/token"
 	"go/types"
@@ -24,18 +25,73 @@ type siteReason struct {
 var reasonUsed = map[int]bool{}
 
 func lookupReason(table []siteReason, fn, kind, expr string) (string, bool) {
+	return lookupReasonSite(table, []string{fn}, kind, []string{expr})
+}
+
+// lookupReasonSite: the site may be named by its own function or by the function a transparent helper
+// is inlined into; its operand by the rendering as written or by the canonical (name-free) rendering.
+func lookupReasonSite(table []siteReason, fns []string, kind string, exprs []string) (string, bool) {
 	for i, r := range table {
 		if r.kind != kind {
 			continue
 		}
-		if r.fn != "" && !strings.HasSuffix(fn, r.fn) {
-			continue
+		okF := r.fn == ""
+		for _, fn := range fns {
+			rb := r.fn
+			if i := strings.Index(rb, "$"); i >= 0 {
+				rb = rb[:i] // a reason naming a function literal also covers its enclosing function's other literals
+			}
+			if strings.HasSuffix(fn, r.fn) || strings.HasSuffix(fn, rb) || (strings.HasSuffix(r.fn, ".") && strings.HasPrefix(fn, r.fn)) {
+				okF = true // a reason may name a function (suffix) or a whole package ("mpc/ps.")
+			}
 		}
-		if r.expr != "" && !strings.HasPrefix(expr, r.expr) {
+		okE := r.expr == ""
+		for _, e := range exprs {
+			if strings.HasPrefix(e, r.expr) {
+				okE = true
+			}
+		}
+		if !okF || !okE {
 			continue
 		}
 		reasonUsed[i] = true
 		return r.reason, true
+	}
+	return "", false
+}
+
+// siteReason looks a panic site up in the frozen table.
+func (pm *panicModel) siteReason(s panicSite) (string, bool) {
+	fn := s.in.Parent()
+	// the site's function, the functions it is nested in, and those a transparent helper is inlined into
+	var names []string
+	base := func(n string) string {
+		if i := strings.Index(n, "$"); i >= 0 {
+			return n[:i]
+		}
+		return n
+	}
+	for f := fn; f != nil; {
+		names = append(names, FuncName(f))
+		if b := base(FuncName(f)); b != FuncName(f) {
+			names = append(names, b)
+		}
+		if f.Parent() != nil {
+			f = f.Parent()
+		} else if c := helperCall(f); c != nil {
+			f = c.Parent()
+		} else {
+			break
+		}
+	}
+	if r, ok := lookupReasonSite(c10Reasons, names, s.kind, []string{s.canon}); ok {
+		return r, true
+	}
+	if os.Getenv("TSS_REKEY") != "" {
+		if r, ok := lookupReasonSite(c10Reasons, names, s.kind, []string{s.expr}); ok {
+			fmt.Fprintf(os.Stderr, "REKEY\t%s\t%s\t%s\t%s\n", names[0], s.kind, s.expr, s.canon)
+			return r, true
+		}
 	}
 	return "", false
 }
@@ -73,7 +129,7 @@ func checkC10(c *Ctx) {
 					c.OK(P1, fn, construct, pos, by)
 					continue
 				}
-				if r, ok := lookupReason(c10Reasons, fn, s.kind, s.expr); ok {
+				if r, ok := pm.siteReason(s); ok {
 					c.OK(P1, fn, construct, pos, "reason: "+r)
 					continue
 				}
@@ -84,7 +140,7 @@ func checkC10(c *Ctx) {
 					c.OK(P1, fn, construct, pos, by)
 					continue
 				}
-				if r, ok := lookupReason(c10Reasons, fn, s.kind, s.expr); ok {
+				if r, ok := pm.siteReason(s); ok {
 					c.OK(P1, fn, construct, pos, "reason: "+r)
 					continue
 				}
@@ -92,12 +148,12 @@ func checkC10(c *Ctx) {
 			case "nilcheck":
 				c.OK(P1, fn, construct, pos, "method value taken from an interface value returned by a factory/constructor (injected dependency contract: factories return non-nil)")
 			case "panic":
-				if r, ok := lookupReason(c10Reasons, fn, s.kind, s.expr); ok {
+				if r, ok := pm.siteReason(s); ok {
 					c.OK(P1, fn, construct, pos, "reason: "+r)
 					continue
 				}
 				for _, pr := range panicReasons {
-					if strings.HasSuffix(fn, pr.fnSuffix) && strings.HasPrefix(s.expr, pr.text) {
+					if panicFnMatches(s.in.Parent(), pr.fnSuffix) && strings.HasPrefix(s.expr, pr.text) {
 						c.OK(P1, fn, construct, pos, "reason: "+pr.reason)
 						goto next
 					}
@@ -123,13 +179,13 @@ func checkC10(c *Ctx) {
 				ms := s.in.(*ssa.MakeSlice)
 				if ok, by := pm.allocBounded(ms); ok {
 					c.OK(P2, fn, construct, pos, by)
-				} else if r, ok := lookupReason(c10Reasons, fn, s.kind, s.expr); ok {
+				} else if r, ok := pm.siteReason(s); ok {
 					c.OK(P2, fn, construct, pos, "reason: "+r)
 				} else {
 					c.Bad(P2, fn, construct, pos, "allocation sized by a value that is neither the size of data already in memory nor bounded by a dominating constant limit")
 				}
 			case "divide":
-				if r, ok := lookupReason(c10Reasons, fn, s.kind, s.expr); ok {
+				if r, ok := pm.siteReason(s); ok {
 					c.OK(P1, fn, construct, pos, "reason: "+r)
 				} else {
 					c.Bad(P1, fn, construct, pos, "integer division by a value not known to be non-zero")
